@@ -88,7 +88,7 @@ class Cls:
 class Prog:
 	def __init__(self) -> None:
 		self.classes: list[Cls] = []
-		self.enums: list[tuple[str, list[str]]] = []
+		self.enums: list[tuple[str, list[tuple[str, str, int]]]] = []   # (class, [(member, value source, value)])
 		self.funcs: list[Func] = []
 		self.args: dict[str, list[list[Any]]] = {}
 
@@ -284,7 +284,7 @@ def print_prog(p: Prog) -> str:
 		out.extend(['from enum import Enum', '', ''])
 	for name, members in p.enums:
 		out.append(f'class {name}(Enum):')
-		out.extend(f'\t{m} = {i}' for i, m in enumerate(members))
+		out.extend(f'\t{m} = {src}' for m, src, _ in members)
 		out.extend(['', ''])
 	for c in p.classes:
 		out.append(f"class {c.name}{'(' + c.base + ')' if c.base else ''}:")
@@ -393,6 +393,8 @@ def classes_of(e: E, parent: E | None, i: int, ctx: str) -> list[str]:
 		out.append('flat:dict-get')
 	if _unsigned_call(e) and not (parent is not None and parent.k == 'call' and parent.val == 'int'):
 		out.append('unsigned:len')
+	if parent is not None and parent.k == 'un' and parent.op == '-' and e.k == 'attr' and e.val == 'value' and e.lo < 0 and not e.paren:
+		out.append('lex:minus-enum-value')
 	if e.k == 'call' and e.val in ('int', 'float') and len(e.kids) == 1 and e.kids[0].k == 'var' and not e.kids[0].paren \
 			and parent is not None and parent.k == 'call' and parent.val in ('int', 'float'):
 		out.append('cast:nested')
@@ -419,6 +421,7 @@ CLASS_WHAT = {
 	'flat:len-arg': '`len(x + y)` is emitted as `x + y.size()`',
 	'flat:range-arg': '`range(a & b)` / `range(x if c else y)` is emitted as `i < a & b` / `i < c ? x : y`',
 	'flat:dict-get': '`d.get(k, v) + 1` is emitted as the bare conditional `d.contains(k) ? d[k] : v + 1`',
+	'lex:minus-enum-value': '`-E.M.value` for a member with a negative value (`M = -3`) inlines the constant after the sign: `--3` (g++: lvalue required as decrement operand)',
 	'cast:nested': '`float(int(float(a))) - 1` is emitted as `(float((int((float(a)))))) - 1`: `(int((float(a))))` reads as a type-id (function type), '
 		'so a following `-`/`+`/`*`/`&` operand makes it a C-style cast: g++ rejects ("invalid cast to function type")',
 	'unsigned:len': '`len(x)` / `s.find(..)` is emitted as the unsigned `.size()` / `.find()`: comparisons, min/max, division against negative values differ',
@@ -553,6 +556,7 @@ class Gen:
 		self.helpers: list[Func] = []
 		self.hist: dict[str, int] = {}
 		self.cur_raises = False
+		self.dead: dict[str, list[str]] = {}   # names whose declaring (nested) block is closed, by type: reused by later declarations
 
 	def count(self, what: str) -> None:
 		self.hist[what] = self.hist.get(what, 0) + 1
@@ -598,6 +602,14 @@ class Gen:
 	def _gen_int(self, env: Env, d: int, nonneg: bool) -> E:
 		r = self.r
 		vs = env.of('int', (lambda v: v.lo >= 0 and (not v.mutable or v.nonneg)) if nonneg else None)
+		if self.prog.enums and r.random() < 0.08:
+			# `Enum.MEMBER.value` as an operand (the emitter inlines the member's constant)
+			en, members = r.choice(self.prog.enums)
+			ms = [(m, val) for m, _, val in members if val >= 0 or not nonneg]
+			if ms:
+				m, val = r.choice(ms)
+				self.count('enum:member.value')
+				return E('attr', 'int', [E('var', f'enum:{en}', val=f'{en}.{m}')], val='value', lo=val, hi=val)
 		if d <= 0 or r.random() < 0.22:
 			if vs and r.random() < 0.7:
 				return self.var_e(r.choice(vs))
@@ -829,7 +841,7 @@ class Gen:
 			if es:
 				v = r.choice(es)
 				self.count('cmp:enum')
-				members = dict(self.prog.enums)[v.ty[5:]]
+				members = [m for m, _, _ in dict(self.prog.enums)[v.ty[5:]]]
 				return E('cmp', 'bool', [self.var_e(v), E('var', v.ty, val=f'{v.ty[5:]}.{r.choice(members)}')], op=[r.choice(['==', '!='])])
 		if x < 0.985:
 			s = self.gen_string_obj(env, 0)
@@ -976,7 +988,7 @@ class Gen:
 	def declare(self, env: Env, body: list[S], ty: str | None = None) -> Var:
 		r = self.r
 		ty = ty or r.choice(['int', 'int', 'int', 'bool', 'str', 'float', 'float', 'list[int]', 'list[int]', 'dict[str,int]', 'dict[int,int]', 'obj', 'unpack', 'enum'])
-		name = self.fresh('v')
+		name = self.pick_name(env, ty) if ty in self.REUSABLE else self.fresh('v')
 		if ty == 'unpack':
 			# destructuring of a tuple *variable* (`x, y = (a, b)` directly is emitted as `auto [x, y] = {a, b};`, rejected by g++ — defect candidate)
 			a, b = self.gen_int(env, 1), self.gen_bool(env, 1)
@@ -990,7 +1002,8 @@ class Gen:
 		if ty == 'enum':
 			if not self.prog.enums:
 				return self.declare(env, body, 'int')
-			en, members = r.choice(self.prog.enums)
+			en, members3 = r.choice(self.prog.enums)
+			members = [m for m, _, _ in members3]
 			c = self.gen_bool(env, 1)
 			e = E('tern', f'enum:{en}', [E('var', f'enum:{en}', val=f'{en}.{r.choice(members)}'), self.maybe_paren(c, 0.1), E('var', f'enum:{en}', val=f'{en}.{r.choice(members)}')])
 			body.append(S('assign', E('var', f'enum:{en}', val=name), e))
@@ -1198,6 +1211,25 @@ class Gen:
 		self.count('method:mutator')
 		return True
 
+	REUSABLE = ('int', 'bool', 'str', 'float', 'list[int]', 'dict[str,int]', 'dict[int,int]')
+
+	def release(self, sub: Env) -> None:
+		"""the nested scope `sub` is closed: its own names are free again (addendum 16: the same name is declared in a sibling block,
+		later in the enclosing scope, later assigned in another nested block — Python sees one function-level variable, C++ one per scope)"""
+		for n in sorted(sub.locals_only):
+			v = sub.vars.get(n)
+			if v is not None and v.ty in self.REUSABLE:
+				self.dead.setdefault(v.ty, []).append(n)
+
+	def pick_name(self, env: Env, ty: str) -> str:
+		pool = [n for n in self.dead.get(ty, []) if n not in env.vars]
+		if pool and self.r.random() < 0.55:
+			n = self.r.choice(pool)
+			self.dead[ty] = [m for m in self.dead[ty] if m != n]
+			self.count('name:reused')
+			return n
+		return self.fresh('v')
+
 	def gen_block(self, env: Env, n: int, depth: int, ret: str | None) -> list[S]:
 		"""n statements in a fresh nested scope"""
 		sub = Env(self, env)
@@ -1206,6 +1238,7 @@ class Gen:
 			self.gen_stmt(sub, body, depth, ret)
 		if not body:
 			body.append(S('pass'))
+		self.release(sub)
 		return body
 
 	def gen_stmt(self, env: Env, body: list[S], depth: int, ret: str | None) -> None:
@@ -1355,6 +1388,7 @@ class Gen:
 				body.append(S('if', [(self.gen_bool(env, self.size), [S(kind)])], None))
 			else:
 				self.gen_stmt(env, body, depth - 1, None)
+		self.release(env)
 		return body
 
 	# ------------------------------------------------------------------ functions / classes
@@ -1400,6 +1434,7 @@ class Gen:
 		ret = r.choice(['int', 'int', 'int', 'bool', 'str'] + ([] if helper else ['list[int]', 'dict', 'tuple', 'obj', 'float']))
 		body: list[S] = []
 		self.cur_raises = False
+		self.dead = {}
 		for _ in range(r.randint(1, 2)):
 			self.declare(env, body)
 		if r.random() < 0.3:
@@ -1547,6 +1582,27 @@ class Gen:
 			cls.methods.append(mk)
 		return cls
 
+	def gen_enum(self) -> None:
+		"""an Enum whose member values are int literals or unparenthesised constant expressions (distinct values: no aliases)"""
+		r = self.r
+		members: list[tuple[str, str, int]] = []
+		seen: set[int] = set()
+		for i in range(r.randint(2, 4)):
+			for _ in range(8):
+				x = r.random()
+				a, b = r.randint(1, 9), r.randint(1, 9)
+				src = str(r.randint(0, 20)) if x < 0.35 else r.choice([f'{a} + {b}', f'{a + b} - {b}', f'{a} | {b}', f'{a} * {b}', f'-{a}', f'{a} << {b % 3}', f'{a} + {b} * 2', f'{a} & {b + 8}'])
+				val = int(eval(src))  # noqa: S307 - literal arithmetic built two lines above
+				if val not in seen:
+					seen.add(val)
+					members.append((f'M{i}', src, val))
+					break
+		if len(members) >= 2:
+			self.prog.enums.append(('E' + self.fresh(''), members))
+			self.count('enum:class')
+			if any(not src.lstrip('-').isdigit() for _, src, _ in members):
+				self.count('enum:computed-member')
+
 	# ------------------------------------------------------------------ programs
 
 	def gen_args(self, f: Func) -> list[list[Any]]:
@@ -1576,9 +1632,8 @@ class Gen:
 			if r.random() < 0.4:
 				p.classes.append(self.gen_class('D' + self.fresh(''), c1))
 				self.count('class:inherit')
-		if kind != 'expr' and r.random() < 0.3:
-			p.enums.append(('E' + self.fresh(''), [f'M{i}' for i in range(r.randint(2, 4))]))
-			self.count('enum:class')
+		if r.random() < (0.25 if kind == 'expr' else 0.4):
+			self.gen_enum()
 		if kind != 'expr' and r.random() < 0.6:
 			h = self.gen_stmt_func(self.fresh('h'), helper=True) if r.random() < 0.5 else self.gen_expr_func(self.fresh('h'))
 			h.entry = False
@@ -1595,6 +1650,83 @@ class Gen:
 		for f in p.funcs:
 			p.args[f.name] = self.gen_args(f)
 		return p
+
+
+PROBE_WHAT = {
+	'reject:lambda-var': 'a lambda assigned to a variable is rejected by Py2Cpp (Errors.Fatal <- AssertionError "Not allowed convertion ... MoveAssign")',
+	'reject:enum-var-value': '`e.value` on a variable of an Enum type is rejected by Py2Cpp (Errors.Fatal <- IndexError in on_relay)',
+	'cxx:tuple-literal-destructuring': '`x, y = (a, b)` is emitted as `auto [x, y] = {a, b};` (structured binding of an initializer_list): g++ rejects',
+	'cxx:raise-exception': '`raise Exception(msg)` is emitted as `throw std::exception(std::format(..))`: std::exception has no such constructor (MSVC extension)',
+	'cxx:str-literal-operand': 'string literals stay `const char*`: `\'a\' + \'b\'`, `len(\'ab\')`, `\'ab\'.startswith(..)` do not compile',
+	'cxx:str-index-char': '`s[i]` is emitted as `s[i]` (a `char`) where Python has a str: returning/concatenating/comparing it as a string does not compile',
+	'cxx:str-repeat': '`s * n` is emitted as `s * n`: no such operator on std::string',
+	'cxx:unmapped-method': 'list/str/dict methods without a C++ mapping are passed through under their Python or provisional (data/i18n.yml FIXME) name: '
+		'sort/reverse/index/remove, count/split/upper/lower/replace/strip/join, update — g++ rejects',
+	'ub:negative-index': '`xs[-1]` is emitted verbatim: out-of-bounds access in C++ (aborts under -D_GLIBCXX_ASSERTIONS)',
+}
+
+
+def probe_program(rng: random.Random, key: str | None = None) -> tuple[str, dict[str, Any]]:
+	"""A tiny program around ONE construct tranp is known to mishandle (each has its own finding key), with randomised operands.
+	They are kept out of the ordinary generated programs so that a known defect never hides another failure of the same program."""
+	g = Gen(rng, 1)
+	key = key or rng.choice(sorted(PROBE_WHAT))
+	params = g.gen_params(['int', 'int']) + [('s', 'str', 1, 5)]
+	a, b = params[0][0], params[1][0]
+	env = g.env_of(params[:2])
+	sig = ', '.join(f'{n}: {t}' for n, t, _, _ in params)
+	e1, e2 = pe(g.gen_int(env, 1, cap=500)), pe(g.gen_int(env, 1, cap=500))
+	cond = pe(g.gen_bool(env, 1))
+	lit = ''.join(rng.choice('abxy') for _ in range(rng.randint(1, 3)))
+	ret = 'int'
+	pre = ''
+	if key == 'reject:lambda-var':
+		body = f'\tg = lambda z: z + {e1}\n\treturn g({b}) - {e2}\n'
+	elif key == 'reject:enum-var-value':
+		pre = f'from enum import Enum\n\n\nclass K(Enum):\n\tP = {rng.randint(0, 4)}\n\tQ = {rng.randint(5, 9)}\n\n\n'
+		body = f'\te = K.P if {cond} else K.Q\n\treturn e.value + {e1}\n'
+	elif key == 'cxx:tuple-literal-destructuring':
+		body = f'\tx, y = ({e1}, {e2})\n\treturn x - y\n'
+	elif key == 'cxx:raise-exception':
+		body = f"\tif {cond}:\n\t\traise Exception('{lit}')\n\treturn {e1}\n"
+	elif key == 'cxx:str-literal-operand':
+		body = rng.choice([f"\tt = '{lit}' + '{lit[::-1]}' + s\n\treturn len(t) + {e1}\n", f"\treturn len('{lit}') + {e1}\n",
+			f"\tif '{lit}x'.startswith('{lit[:1]}'):\n\t\treturn {e1}\n\treturn {e2}\n"])
+	elif key == 'cxx:str-index-char':
+		ret = 'str'
+		body = rng.choice([f"\treturn s[0] + '{lit}'\n", '\treturn s[0]\n', f"\tif s[0] == '{lit[:1]}':\n\t\treturn s\n\treturn '{lit}'\n"])
+	elif key == 'cxx:str-repeat':
+		ret = 'str'
+		body = f"\treturn s * {rng.randint(0, 3)} + '{lit}'\n"
+	elif key == 'cxx:unmapped-method':
+		m = rng.choice(['sort', 'reverse', 'index', 'remove', 'count', 'split', 'upper', 'lower', 'replace', 'strip', 'join', 'update'])
+		if m in ('sort', 'reverse'):
+			body = f'\txs = [{e1}, {e2}, {a}]\n\txs.{m}()\n\treturn xs[0] - xs[2]\n'
+		elif m == 'index':
+			body = f'\txs = [{e1}, {e2}, {a}]\n\treturn xs.index({a}) + {b}\n'
+		elif m == 'remove':
+			body = f'\txs = [{e1}, {e2}, {a}]\n\txs.remove({a})\n\treturn len(xs) + xs[0]\n'
+		elif m == 'count':
+			body = f"\treturn s.count('{lit[:1]}') + {e1}\n"
+		elif m == 'split':
+			body = f"\treturn len(s.split('{lit[:1]}')) + {e1}\n"
+		elif m == 'join':
+			body = f"\treturn len('{lit[:1]}'.join([s, s])) + {e1}\n"
+		elif m == 'update':
+			body = f"\td = {{'k': {e1}}}\n\td.update({{'j': {e2}}})\n\treturn d['j'] + len(d)\n"
+		else:
+			ret = 'str'
+			args = {'upper': '', 'lower': '', 'replace': f"'{lit[:1]}', 'zz'", 'strip': f"'{lit[:1]}'"}[m]
+			body = f"\treturn s.{m}({args}) + '{lit}'\n"
+	else:
+		k = rng.randint(1, 3)
+		body = f'\txs = [{e1}, {e2}, {a}]\n\treturn xs[-{k}] + {b}\n'
+	source = f'{pre}def f({sig}) -> {ret}:\n{body}'
+	f = Func('f', params, ret, [])
+	args = g.gen_args(f)
+	for v in args:
+		v[2] = ''.join(rng.choice('abxy ') for _ in range(rng.randint(1, 5)))
+	return key, {'source': source, 'entries': [{'fn': 'f', 'params': [t for _, t, _, _ in params], 'ret': ret, 'args': args}], 'classes': {}}
 
 
 def generate(rng: random.Random, size: int = 2, kind: str | None = None) -> tuple[Prog, dict[str, int]]:
